@@ -87,7 +87,7 @@ CHECKS["C04"] = {
                        "cstruct.py:cstruct._make_array", "cstruct.py:cstruct._make_pointer",
                        "expression.py:Expression.evaluate"],
     "required_cells": ["align:True", "align:False", "alignclass:1", "alignclass:2", "alignclass:4", "alignclass:8",
-                       "alignclass:16", "mixed-modes:aligned-offset", "mixed-modes:unaligned-offset"],
+                       "alignclass:16", "mixed-modes:aligned-offset", "mixed-modes:unaligned-offset", "empty-structures"],
     "assumptions": ASSUME_COMMON,
 }
 
@@ -270,7 +270,7 @@ CHECKS["C19"] = {
                        "utils.py:pack", "utils.py:unpack", "utils.py:swap", "utils.py:p8", "utils.py:u64",
                        "utils.py:swap16", "utils.py:swap32", "utils.py:swap64"],
     "required_cells": ["len%16=0", "len%16=1", "len%16=15", "palette:zeros", "palette:long", "palette:short",
-                       "palette:lineends", "dumpstruct:bits", "dumpstruct:plain", "pack:network", "pack:!", "pack:<", "pack:odd-width"],
+                       "palette:lineends", "dumpstruct:bits", "dumpstruct:plain", "pack:network", "pack:!", "pack:<", "pack:odd-width", "dumpstruct:forms"],
     "assumptions": ASSUME_COMMON,
 }
 
@@ -360,7 +360,7 @@ CHECKS["C11"] = {
     "required_cells": ["pinned-witnesses", "align:True", "align:False", "shape:top", "shape:field", "shape:anon", "route:direct",
                        "route:nested-via-proxy", "route:nested-deep", "route:anonymous-struct-field",
                        "route:array-replace", "route:nested-union", "route:explicit-offset-member",
-                       "shape:explicit-offsets", "held-reference", "route:refused-assignment"],
+                       "shape:explicit-offsets", "held-reference", "route:refused-assignment", "route:array-assigned-back"],
     "assumptions": ASSUME_COMMON + ["an assignment writes the member's full encoding (its padding as zero) into the "
                                     "union's bytes"],
 }
